@@ -11,7 +11,7 @@ open SpatialId
 theorem ConvertAltitudekeyToMinMaxZ_eq (k zk zo E O : Int) :
     Gen.ConvertAltitudekeyToMinMaxZ k zk zo E O = k2z k zk zo E O := by
   unfold Gen.ConvertAltitudekeyToMinMaxZ k2z
-  simp only [Id.run, id_pure, CalculateArithmeticShift_eq]
+  simp only [Id.run, id_pure, gen_helper, CalculateArithmeticShift_eq]
   tie_auto
 
 end SpatialId.Tie
